@@ -103,7 +103,7 @@ def build_drivers(tier):
     return out, tsan_note
 
 
-def run_driver(exe, seed, runs, out, threads=0, timeout=180):
+def run_driver(exe, seed, runs, out, threads=0, timeout=300):
     cmd = [exe, "--seed", str(seed), "--runs", str(runs), "--out", out]
     if threads:
         cmd += ["--threads", str(threads)]
@@ -111,7 +111,8 @@ def run_driver(exe, seed, runs, out, threads=0, timeout=180):
     env["TSAN_OPTIONS"] = "halt_on_error=1 exitcode=%d report_signal_unsafe=0" % RC_TSAN
     try:
         p = subprocess.run(cmd, capture_output=True, text=True, timeout=timeout, env=env)
-        return p.returncode, p.stderr[-6000:], cmd
+        err = p.stderr if len(p.stderr) <= 8000 else p.stderr[:4000] + "\n...\n" + p.stderr[-4000:]
+        return p.returncode, err, cmd
     except subprocess.TimeoutExpired:
         return RC_TIMEOUT, "driver did not finish within %ds" % timeout, cmd
 
@@ -123,6 +124,8 @@ def split_histories(path):
     """-> header line, [(first_line_no (1-based), [lines])] per history."""
     with open(path) as f:
         lines = f.readlines()
+    if not lines:
+        return "", []
     hist = []
     for i, ln in enumerate(lines[1:], start=2):
         if ln.startswith('{"e":"reset"'):
@@ -287,7 +290,7 @@ def run(prop, tier, seed):
     if tier == "quick":
         procs_per_exe, runs = 5, 24
     else:
-        procs_per_exe, runs = 36, 36
+        procs_per_exe, runs = 48, 40
     jobs = []
     for (key, cfg), exe in drivers:
         n = procs_per_exe if cfg != "tsan" else max(2, procs_per_exe // 3)
@@ -343,7 +346,8 @@ def run(prop, tier, seed):
                 kind = {RC_CRASH: "crashed", RC_HANG: "hung (a call never returned: the mutex was left locked or the unsynchronised index was corrupted)",
                         RC_TSAN: "ThreadSanitizer reported a data race (two index operations were not mutually exclusive)",
                         RC_TIMEOUT: "did not finish (timeout)"}.get(rc, "was killed by signal %d" % -rc)
-                rep.violation("%s seed %d: driver %s: %s" % (inst, job["seed"], kind, job["err"][-1500:].strip()),
+                msg = job["err"][:1500] if rc == RC_TSAN else job["err"][-1500:]
+                rep.violation("%s seed %d: driver %s: %s" % (inst, job["seed"], kind, msg.strip()),
                               {"instance": inst, "seed": job["seed"], "cmd": job["cmd"], "rc": rc, "stderr": job["err"]})
             else:
                 raise vlib.CheckBroken("mutex_driver failed rc=%s: %s\n%s" % (rc, " ".join(job["cmd"]), job["err"][-1500:]))
@@ -377,10 +381,13 @@ def run(prop, tier, seed):
                            "replay_cmd": "TRACE=%s java -Dtlc2.tool.queue.IStateQueue=StateDeque -cp %s tlc2.TLC -workers 1 -deadlock -config spec/cfg/MutexTrace/trace.cfg spec/MutexTrace.tla"
                                          % (keep, vlib.TLA_CP)})
     if not samples and nhist:
-        hdr, hist = split_histories(jobs[0]["out"])
-        if hist:
-            samples.append({"seed": jobs[0]["seed"], "reset": json.loads(hist[0][1][0]),
-                            "first_events": [json.loads(x) for x in hist[0][1][1:9]]})
+        for job in jobs:
+            hist = split_histories(job["out"])[1] if os.path.exists(job["out"]) else []
+            if hist:
+                samples.append({"seed": job["seed"], "reset": json.loads(hist[0][1][0]),
+                                "events": len(hist[0][1]) - 1,
+                                "first_events": [json.loads(x) for x in hist[0][1][1:9]]})
+                break
     if nhist == 0 and not rep.violations:
         raise vlib.CheckBroken("no history was recorded")
     if not samples:
